@@ -401,8 +401,12 @@ struct Driver {
             for (long hf : hfs) if (hf_in_live_cell((int)hf)) return false;
             if (hfs.size() != 4) { malformed = true; return true; }
             bool ok = closed_surface(hfs);
-            if (ok) { std::set<int> vs; for (long hf : hfs) for (int v : hf_verts((int)hf)) vs.insert(v); ok = vs.size() == 4; }
-            if (a[0] == 0) return ok;
+            std::set<int> vs; for (long hf : hfs) for (int v : hf_verts((int)hf)) vs.insert(v);
+            if (ok) ok = vs.size() == 4;
+            // the override refuses four triangles that do not span exactly four vertices even WITHOUT topology check
+            // (64c6d58): such unchecked calls are made on purpose and must come back rejected; other unchecked garbage
+            // (four vertices, not closed) is "at the user's risk" and not generated
+            if (a[0] == 0) { if (ok) return true; if (vs.size() != 4) { malformed = true; return true; } return false; }
             malformed = !ok; return true;
         }
         if (n == "tet_add_halfedge") return a.size() == 2 && vbu() && liveV((int)a[0]) && liveV((int)a[1]) && a[0] != a[1];
@@ -612,7 +616,7 @@ struct Driver {
         else exec(Op{"tet_add_halfface_he", {(long)rng.below(2), 3, hes[r], hes[(r + 1) % 3], hes[(r + 2) % 3]}});
     }
     void gen_rejected() {
-        int what = (int)rng.below(8);
+        int what = (int)rng.below(9);
         std::vector<int> lhe; for (int h = 0; h < 2 * nE(); ++h) if (liveHE(h)) lhe.push_back(h);
         std::vector<int> lhf = free_tris();
         std::vector<int> lv = live(0);
@@ -644,7 +648,19 @@ struct Driver {
         }
         if (what == 3 && lhf.size() >= 4) {               // four free triangles that are not a closed surface, checked
             std::vector<int> pool = lhf; rng.shuffle(pool);
-            Op op; op.name = "add_cell"; op.a = {1, 4, pool[0], pool[1], pool[2], pool[3]};
+            Op op; op.name = "add_cell"; op.a = {(long)rng.below(2), 4, pool[0], pool[1], pool[2], pool[3]};
+            exec(op); return;
+        }
+        if (what == 8 && lv.size() >= 5 && ebu() && vbu()) {
+            // four triangles spanning FIVE vertices, the stray vertex only in the last halffaces: (a,b,c) (a,c,d) (a,d,e) (b,d,c)
+            rng.shuffle(lv);
+            long a_ = lv[0], b_ = lv[1], c_ = lv[2], d_ = lv[3], e_ = lv[4];
+            long tri[4][3] = {{a_, b_, c_}, {a_, c_, d_}, {a_, d_, e_}, {b_, d_, c_}};
+            std::vector<long> hfs;
+            for (auto& t : tri) { if (!exec(mk("tet_add_halfface3", {0, t[0], t[1], t[2]}))) return; int hf = find_hf_by_verts({(int)t[0], (int)t[1], (int)t[2]}); if (hf < 0 || hf_in_live_cell(hf)) return; hfs.push_back(hf); }
+            std::set<long> u(hfs.begin(), hfs.end()); if (u.size() != 4) return;
+            if (rng.chance(1, 2)) std::swap(hfs[2], hfs[3]);
+            Op op; op.name = "add_cell"; op.a = {(long)rng.below(2), 4, hfs[0], hfs[1], hfs[2], hfs[3]};
             exec(op); return;
         }
         if (what == 4 && !lv.empty()) {                   // add_cell(vector) with three or five vertices
